@@ -27,6 +27,7 @@ import (
 
 func init() {
 	verifrt.Register("H_E2E_PowerFailure", H_E2E_PowerFailure)
+	verifrt.Register("H_E2E_NameReused", H_E2E_NameReused)
 }
 
 // vMetaR is a part descriptor as the request decoder hands it to the stage
@@ -337,5 +338,120 @@ func H_E2E_PowerFailure(v *verifrt.T) {
 		}
 	} else {
 		v.Assert(false, "C07 the cache file is loadable")
+	}
+}
+
+
+// A name that is used again for new content. Version 1 of g/a is sent,
+// delivered, confirmed and taken away by the consumer. The source file is then
+// rewritten (version 2: other size, later time); the next sender run loses
+// power immediately before the k-th file-system call of either side (every k);
+// both restart. Asserted: version 2 reaches the final directory exactly once,
+// byte-identical, and its source file is removed (and marked done) only after
+// that — never on the strength of what the receiver knows about version 1.
+func H_E2E_NameReused(v *verifrt.T) {
+	v.FixClock()
+	root := v.TempRoot()
+	for _, d := range []string{"cache", "stage", "final", "rlog"} {
+		os.MkdirAll(filepath.Join(root, d), 0o755)
+	}
+	size1 := int64(1 + v.Choose("size-v1", 3))
+	size2 := int64(1 + v.Choose("size-v2", 3))
+	v.Version("v1", size1)
+	h2 := v.Version("v2", size2)
+	mtime := v.Now().Add(-2 * time.Hour)
+	src := &vSource{v: v, files: map[string]*vSrcFile{"g/a": {name: "g/a", size: size1, time: mtime, tag: "v1"}}, order: []string{"g/a"}}
+	wire := &vWire{v: v, tags: map[string]string{"g/a": "v1"}}
+	del := v.Bool("delete-after-confirmation")
+	finalDir := filepath.Join(root, "final")
+	run := func() {
+		rlog := log.NewFileIO(filepath.Join(root, "rlog"), nil, nil, true)
+		wire.s = stage.New("src", filepath.Join(root, "stage"), finalDir, rlog, nil, nil)
+		wire.s.Recover()
+		c, err := cache.NewJSON(filepath.Join(root, "cache"), "/out", "k")
+		if err != nil {
+			v.Assert(false, "C07 the cache file is loadable after a crash at any point")
+			return
+		}
+		tagger := func(string) string { return "" }
+		broker := &Broker{Conf: &Conf{
+			Name: "src", Store: src, Cache: c,
+			Queue:        queue.NewTagged([]*queue.Tag{{Name: "", Order: sts.OrderFIFO, ChunkSize: 4}}, tagger, func(n string) string { return "g" }),
+			Recoverer:    wire.partials,
+			BuildPayload: payload.NewBin,
+			Transmitter:  wire.transmit,
+			TxRecoverer:  wire.recoverTransmission,
+			Validator:    wire.validate,
+			Logger:       &vSentLog{},
+			Tagger:       tagger,
+			CacheAge:     time.Hour, ScanDelay: 0, Threads: 1, PayloadSize: 8,
+			StatInterval: time.Hour, PollDelay: time.Second, PollInterval: time.Second, PollAttempts: 3, PollMaxCount: 10,
+			Tags: []*FileTag{{Name: "", InOrder: true, Delete: del}}, ErrorBackoff: 1,
+		}}
+		stop, done := make(chan bool, 1), make(chan bool, 1)
+		stop <- true // one-shot
+		go broker.Start(stop, done)
+		for r := 0; r < 200 && len(done) == 0; r++ {
+			v.QuiesceTimers(1)
+		}
+		if len(done) == 0 {
+			v.Assert(false, "C07 the sender finishes its work")
+		}
+		v.Quiesce()
+	}
+	// version 1: an undisturbed transfer
+	run()
+	v.KillProcess()
+	final := filepath.Join(finalDir, "g/a")
+	v.Assert(v.FileIs(final, "v1"), "set-up: version 1 delivered")
+	os.Remove(final)
+	// the name is used again (a file deleted after confirmation is written anew;
+	// a kept file is rewritten in place)
+	src.files["g/a"] = &vSrcFile{name: "g/a", size: size2, time: mtime.Add(time.Hour), tag: "v2"}
+	src.removed = nil
+	wire.tags["g/a"] = "v2"
+	sent1 := wire.sent
+	k := v.Choose("power-failure-before-fs-call", v.Param("MAXK", 40)+1) // 0: none
+	crashed := false
+	if k > 0 {
+		crashed = v.RunUntilCrash(k, run)
+	} else {
+		run()
+	}
+	if crashed {
+		v.Reach("power-failure")
+	} else {
+		v.Reach("no-failure")
+		v.KillProcess()
+	}
+	// what the sender knew when the lights went out
+	nothingSentYet := wire.sent == sent1
+	hashedV2 := false
+	if c, err := cache.NewJSON(filepath.Join(root, "cache"), "/out", "k"); err == nil {
+		if f := c.Get("g/a"); f != nil && f.GetHash() == h2 {
+			hashedV2 = true
+		}
+	}
+	// known finding: the status poll names a file by name and time only, so a
+	// sender that restarts with version 2 hashed in its cache but not a byte
+	// of it sent is told "passed" for version 1
+	kf := crashed && nothingSentYet && hashedV2
+	deliveries := 0
+	consume := func() {
+		if v.Exists(final) {
+			v.AssertKF(v.FileIs(final, "v2"), "C01 whatever reaches the final directory is the announced version, byte for byte", "KF-C02-poll-by-name", kf)
+			deliveries++
+			os.Remove(final)
+		}
+	}
+	consume()
+	v.AssertKF(len(src.removed) == 0 || deliveries == 1, "C02 the source file is removed only after the receiver delivered and confirmed THAT version", "KF-C02-poll-by-name", kf)
+	run()
+	v.KillProcess()
+	consume()
+	v.AssertKF(len(src.removed) == 0 || deliveries == 1, "C02 the source file is removed only after the receiver delivered and confirmed THAT version", "KF-C02-poll-by-name", kf)
+	v.AssertKF(deliveries == 1, "C02/C05 the new version of a name that is used again is delivered exactly once", "KF-C02-poll-by-name", kf)
+	if kf {
+		v.Reach("restart-before-first-byte")
 	}
 }
